@@ -201,7 +201,7 @@ func runHarness(h *harness, fn string, overlay map[string][]byte) *harnessResult
 var thoroughHarnesses = map[string][]string{
 	"C01": {"H1"}, "C02": {"H1", "H6"}, "C03": {"H1", "H8"}, "C04": {"H8"}, "C05": {"H1", "H2"}, "C06": {"H1", "H2"},
 	"C07": {"H1", "H2", "H6"}, "C08": {"H1", "H2"}, "C09": {"H1", "H2"}, "C10": {"H2", "H8"}, "C11": {"H1", "H4"},
-	"C12": {"H2"}, "C13": {"H6"}, "C14": {"H3"}, "C18": {"H1", "H2"}, "C19": {"H5"},
+	"C12": {"H2", "H9"}, "C13": {"H6"}, "C14": {"H3", "H9"}, "C18": {"H1", "H2"}, "C19": {"H5"},
 }
 
 // runThoroughHarnesses returns one structural obligation per harness. A scripted concurrency
